@@ -409,6 +409,27 @@ def native_run(harness, values_path, profile, realize=None, timeout=120):
     return "error", out[-1500:]
 
 
+def witness_search(harness, trials=400, budget_s=420):
+    """No playback from Kani (failed bounds / overflow check): run the harness natively with biased
+    pseudo-random values until a trial panics; returns the drawn values of that trial (hex strings)
+    or None.  Only used to concretise a verdict the solver already gave."""
+    env0 = dict(ENV, RUSTC_WRAPPER=os.path.join(REPLAY_DIR, "rustc-wrapper.sh"), RUST_BACKTRACE="0")
+    t0 = time.time()
+    for k in range(1, trials + 1):
+        if time.time() - t0 > budget_s:
+            break
+        env = dict(env0, VERIF_REPLAY_SEARCH=str(k))
+        try:
+            rc, out = sh(["cargo", "test", "--lib", "--", harness, "--exact", "--test-threads", "1", "--nocapture"], cwd=REPLAY_DIR, timeout=60, env=env)
+        except subprocess.TimeoutExpired:
+            rc, out = 1, "hang"
+        if "REPLAY-ASSUME-FALSE" in out or "REPLAY-DESYNC" in out:
+            continue
+        if re.search(r"test result: FAILED|panicked at", out) or out == "hang":
+            return re.findall(r"^DRAW ([0-9a-f]*)$", out, re.M), k
+    return None, 0
+
+
 def replay_case(prop, job, vals, idx):
     """Replay one counterexample natively (dev and release profile; for harnesses with
     stubbed primitives also under every realisation mask, see DESIGN 2.4)."""
@@ -611,7 +632,18 @@ def run_property(prop, tier, seed, only=None, njobs=None):
                         continue
                     inconclusive.append((j["h"], "unwinding assertion failed in the code under test (%s) but the native witness search found no hanging input (%s)" % (hang_keys, st)))
                     continue
-                inconclusive.append((j["h"], "failed checks %s but no concrete playback was produced" % unlisted))
+                # Kani writes no playback for failed bounds / overflow checks either: concretise with the native
+                # witness search (biased random values, see shims/kani-replay), then replay that witness as usual
+                vals, seed_k = witness_search(j["h"])
+                r["witness_search_trials"] = seed_k
+                if vals:
+                    status, cpath, outcomes = replay_case(prop, j, vals, 90)
+                    r["replay"] = [(status, cpath)]
+                    if status == "reproduced":
+                        det = next(o["detail"] for o in outcomes if o["status"] in ("reproduced", "hang"))
+                        violations.append((j["h"], cpath, unlisted, det))
+                        continue
+                inconclusive.append((j["h"], "failed checks %s but no concrete playback was produced and the native witness search found no failing input" % unlisted))
                 continue
             reproduced = False
             details = []
